@@ -37,16 +37,18 @@ Print Assumptions C26_all_valid.
 (* initial-state lemma: pex.New on ANY cache file (peers.json / peers.txt members in
    file order; loadCachedPeersFile validates with allowLocalhost = true, loadCache
    re-validates under the CONFIGURED policy and keeps at most Max, then
-   setAllUntrusted, default connections, DisableTrustedPeers) starts with valid
-   addresses only — and so does every later state, including after save() + restart *)
-Theorem C26_all_valid_from_cache : forall max allow disable es kept defaults now l0 xs k,
-  start max allow disable es kept defaults now = Some l0 ->
+   setAllUntrusted, default connections, DisableTrustedPeers, then the CustomPeersFile
+   added in file order as far as Max allows) starts with valid
+   addresses only — and so does every later state, including after save() + restart
+   and after consuming a downloaded peer list (xop Download) *)
+Theorem C26_all_valid_from_cache : forall max allow disable es kept defaults custom now l0 xs k,
+  start max allow disable es kept defaults custom now = Some l0 ->
   In k (keys (xrun max allow l0 xs)) -> valid_form allow k.
 Proof. exact all_valid_from_cache. Qed.
 Print Assumptions C26_all_valid_from_cache.
 
-Theorem C26_bound_from_cache : forall max allow disable es kept defaults now l0 xs,
-  0 < max -> start max allow disable es kept defaults now = Some l0 -> plen (xrun max allow l0 xs) <= max.
+Theorem C26_bound_from_cache : forall max allow disable es kept defaults custom now l0 xs,
+  0 < max -> start max allow disable es kept defaults custom now = Some l0 -> plen (xrun max allow l0 xs) <= max.
 Proof. exact bound_from_cache. Qed.
 Print Assumptions C26_bound_from_cache.
 
